@@ -315,8 +315,8 @@ theorem LInv.onReadable {s : St} (h : LInv s) (i : Nat) (hal : (s.sock i).alive 
     exact hc.2.2
 
 theorem LInv.resolveFront {s : St} (h : LInv s) (i id : Nat) (rest : List Nat) (v : Fut) (hv : v ≠ .pending)
-    (hq : (s.sock i).sendQ = id :: rest) :
-    LInv ((s.resolve id v).setSock i { (s.sock i) with sendQ := rest }) := by
+    (hq : (s.sock i).sendQ = id :: rest) (fs : Bool) :
+    LInv ((s.resolve id v).setSock i { (s.sock i) with sendQ := rest, failSend := fs }) := by
   have hnd := h.qnodup i
   rw [hq] at hnd
   have hidrest : id ∉ rest := (List.nodup_cons.mp hnd).1
@@ -389,9 +389,12 @@ theorem LInv.onWritable {s : St} (h : LInv s) (i : Nat) : LInv (s.onWritable i) 
   split
   · exact h
   · rename_i id rest hq
-    have hv : (if (s.sock i).kind = .tcp ∧ (s.sock i).peer ≠ .up then Fut.either else Fut.value) ≠ .pending := by
-      split <;> simp
-    have h1 := h.resolveFront i id rest _ hv hq
+    have hv : (if (s.sock i).kind = .tcp ∧ (s.sock i).failSend = true then Fut.exn
+        else if (s.sock i).kind = .tcp ∧ (s.sock i).peer ≠ .up then Fut.either else Fut.value) ≠ .pending := by
+      split
+      · simp
+      · split <;> simp
+    have h1 := h.resolveFront i id rest _ hv hq (if (s.sock i).kind = .tcp then false else (s.sock i).failSend)
     split
     · exact h1.setOut _ _ _
     · exact h1
@@ -624,6 +627,7 @@ theorem LInv.exec {s : St} (h : LInv s) (op : Op) (hl : legalOp s op = true) : L
   | peerConnect i => exact h.setSockLight i _ rfl rfl rfl rfl rfl rfl rfl (h.cfg i).2.2
   | peerClose i => exact h.setSockLight i _ rfl rfl rfl rfl rfl rfl rfl (h.cfg i).2.2
   | peerReset i => exact h.setSockLight i _ rfl rfl rfl rfl rfl rfl rfl (h.cfg i).2.2
+  | sendFail i => exact h.setSockLight i _ rfl rfl rfl rfl rfl rfl rfl (h.cfg i).2.2
   | release i => exact h.setSockLight i _ rfl rfl rfl rfl rfl rfl rfl (by simp)
   | destroySock i =>
     simp only [legalOp, Bool.and_eq_true, beq_iff_eq] at hl
@@ -784,10 +788,15 @@ theorem FInv.onWritable {s : St} (h : FInv s) (i : Nat) : FInv (s.onWritable i) 
   split
   · exact h
   · rename_i id rest hq
-    have hv : (if (s.sock i).kind = .tcp ∧ (s.sock i).peer ≠ .up then Fut.either else Fut.value) ≠ .pending := by
-      split <;> simp
-    generalize (if (s.sock i).kind = .tcp ∧ (s.sock i).peer ≠ .up then Fut.either else Fut.value) = v at hv
-    have h1 : FInv ((s.resolve id v).setSock i { (s.sock i) with sendQ := rest }) := by
+    have hv : (if (s.sock i).kind = .tcp ∧ (s.sock i).failSend = true then Fut.exn
+        else if (s.sock i).kind = .tcp ∧ (s.sock i).peer ≠ .up then Fut.either else Fut.value) ≠ .pending := by
+      split
+      · simp
+      · split <;> simp
+    generalize (if (s.sock i).kind = .tcp ∧ (s.sock i).failSend = true then Fut.exn
+        else if (s.sock i).kind = .tcp ∧ (s.sock i).peer ≠ .up then Fut.either else Fut.value) = v at hv
+    generalize (if (s.sock i).kind = .tcp then false else (s.sock i).failSend) = fs
+    have h1 : FInv ((s.resolve id v).setSock i { (s.sock i) with sendQ := rest, failSend := fs }) := by
       refine ⟨?_, ?_, ?_⟩
       · intro j x hj
         have hj' : (if j = id then (s.futs id).map (fun (p : Nat × Fut) => (p.1, v)) else s.futs j) = some (x, .pending) := hj
@@ -933,6 +942,7 @@ theorem FInv.exec {s : St} (h : FInv s) (v : Variant) (op : Op) : FInv (exec v s
     | peerConnect i => exact h.setSockKeep i _ rfl rfl rfl
     | peerClose i => exact h.setSockKeep i _ rfl rfl rfl
     | peerReset i => exact h.setSockKeep i _ rfl rfl rfl
+    | sendFail i => exact h.setSockKeep i _ rfl rfl rfl
     | release i => exact h.setSockKeep i _ rfl rfl rfl
     | destroySock i => simp only; split; exact h.fail _; exact h.destroySockObj i
     | destroyDriver d => simp only; split; exact h.fail _; exact h.setDrv _ _
